@@ -6,15 +6,15 @@ ping; the idle server answers it; the client is idle again, its sequence number 
 namespace Iodine.C02L
 open Iodine Iodine.Gen Iodine.World
 
-theorem stuck_giveup {P : Par} (hP : P.Ok) {out : List Nat} {w : W} {c0 : Client.Cli} (h : Waiting P out w c0)
-    (hr : 3 ≤ c0.outchunkresent) :
+theorem stuck_giveup {P : Par} (hP : P.Ok) {sl sp : Nat} {out : List Nat} {w : W} {c0 : Client.Cli} (h : WaitingS P sl sp out w c0)
+    (hr : 3 ≤ c0.outchunkresent) (hsp : 1 ≤ sp ∧ sp ≤ 999 := by omega) :
     ∃ w', (∀ k, promptSteps P.u (k + 3) w = promptSteps P.u k w') ∧
       w'.cs.ph = .tunnel ∧ CStat P w'.cs.c ∧ Client.isSending w'.cs.c = false ∧ w'.up = [] ∧ w'.down = [] ∧
       SStat P w'.srv ∧ IdleImm (Server.getUser w'.srv P.u) ∧ (Server.getUser w'.srv P.u).oqFilled = 0 ∧
       w'.cs.c.outpkt.seqno = c0.outpkt.seqno ∧ w'.cs.c.inpkt = c0.inpkt ∧
       (Server.getUser w'.srv P.u).inpacket = (Server.getUser w.srv P.u).inpacket ∧
       (Server.getUser w'.srv P.u).outpacket = (Server.getUser w.srv P.u).outpacket ∧
-      Aged P (Server.getUser w'.srv P.u) w'.cs.c.datacmc 1 ∧ PAged P (Server.getUser w'.srv P.u) w'.cs.c.randSeed 1 ∧
+      Aged P (Server.getUser w'.srv P.u) w'.cs.c.datacmc sl ∧ PAged P (Server.getUser w'.srv P.u) w'.cs.c.randSeed sp ∧
       w'.tunS = w.tunS ∧ w'.tunC = w.tunC ∧
       (Server.getUser w'.srv P.u).tunIp = (Server.getUser w.srv P.u).tunIp ∧
       (Server.getUser w'.srv P.u).fragsize = (Server.getUser w.srv P.u).fragsize ∧ w'.srv.now = w.srv.now + 1 ∧
@@ -157,11 +157,11 @@ theorem stuck_giveup {P : Par} (hP : P.Ok) {out : List Nat} {w : W} {c0 : Client
   · subst hw2; show (Server.getUser s' P.u).inpacket = _; rw [hap.inp, hg1]
   · subst hw2; show (Server.getUser s' P.u).outpacket = _; rw [hap.outp, hg1]
   · subst hw2
-    show Aged P (Server.getUser s' P.u) cd.datacmc 1
+    show Aged P (Server.getUser s' P.u) cd.datacmc sl
     have : cd.datacmc = (c0.datacmc + 1) % 36 := by rw [← hcd]; show (pingState dp).datacmc = _; rw [hpf.datacmc, hcmc]
     rw [this]; exact hA'
   · subst hw2
-    show PAged P (Server.getUser s' P.u) cd.randSeed 1
+    show PAged P (Server.getUser s' P.u) cd.randSeed sp
     have : cd.randSeed = (c0.randSeed + 1) % 65536 := by rw [← hcd]; show (pingState dp).randSeed = _; rw [hpf.seed, hseed]
     rw [this, ← hseed]; exact hPA'
   · subst hw2; subst hw1; rfl
